@@ -142,8 +142,26 @@ class CallerFaults(simnet.Behavior):
             rec["ka"] = k
             if self.a_fault is not None and self.a_fault[0] == k:
                 exc = self.a_fault[1]
+                if exc == "EOF":
+                    if rec["op"] == "read":
+                        rec["fault"] = "EOF"
+                        raise ServerHungUp()
+                    return
                 rec["fault"] = type(exc).__name__
                 raise exc
+
+    def read(self, net, sock, rec):
+        if sock.id in getattr(self, "hung_up", ()):
+            return b""
+        try:
+            return super().read(net, sock, rec)
+        except ServerHungUp:
+            self.hung_up = getattr(self, "hung_up", set()) | {sock.id}
+            return b""          # the peer closed the connection: this read, and every later one, sees end of stream
+
+
+class ServerHungUp(Exception):
+    pass
 
 
 def run_case(runtime, kind, shape, inject, max_connections=1, yield_in_ops=True, retries=0):
@@ -165,7 +183,7 @@ def run_case(runtime, kind, shape, inject, max_connections=1, yield_in_ops=True,
         net.behavior.armed = True
         if inject and inject[0] == "fault":
             import httpcore
-            net.behavior.a_fault = (inject[1], getattr(httpcore, inject[2])("injected"))
+            net.behavior.a_fault = (inject[1], "EOF" if inject[2] == "EOF" else getattr(httpcore, inject[2])("injected"))
         state = {"scope": None}
 
         def hook(k, label):
